@@ -1,6 +1,6 @@
 SPECIFICATION Spec
 CONSTANTS
-  ItemKinds = {"local", "call", "pcall", "assign", "do", "if", "func", "table", "repeat", "compound", "ifret"}
+  ItemKinds = {"local", "pcall", "if", "func", "ifret"}
   MaxTop = 3
   MaxDev = 2
   DevTypes = {"semi", "dir", "cmt", "tail"}
